@@ -72,9 +72,11 @@ class Scenario:
     def ip(self, k):
         return self.block + str(k).encode()
 
-    def listen(self, k, udp=5060, tcp=0, backends=(), dyn=False, no_received=None, must_rr=False):
+    def listen(self, k, udp=5060, tcp=0, backends=(), dyn=False, no_received=None, must_rr=False, dynport=None, dyn_first=False):
+        """dyn: one more backend entry is a host NAME (resolved later: badd / brem events); dynport: its port (default: the
+        port of the first static backend); dyn_first: the name is written before the static entries"""
         l = {"addr": self.ip(k), "udp": udp, "tcp": tcp, "backends": list(backends), "dyn": dyn,
-             "no_received": no_received, "must_rr": must_rr,
+             "no_received": no_received, "must_rr": must_rr, "dynport_opt": dynport, "dyn_first": dyn_first,
              "dynhost": (b"dyn%d.b%s.test" % (len(self.listens), self.block.replace(b".", b"-"))) if dyn else b""}
         self.listens.append(l)
         return len(self.listens) - 1
@@ -138,9 +140,12 @@ class Scenario:
                 y += b"    must-record-route: true\n"
             bs = [b"udp://" + b for b in l["backends"]]
             if l["dyn"]:
-                port = l["backends"][0].split(b":")[1] if l["backends"] else b"5070"
+                port = l["dynport_opt"] or (l["backends"][0].split(b":")[1] if l["backends"] else b"5070")
                 l["dynport"] = port
-                bs.append(b"udp://" + l["dynhost"] + b":" + port)
+                if l["dyn_first"]:
+                    bs.insert(0, b"udp://" + l["dynhost"] + b":" + port)
+                else:
+                    bs.append(b"udp://" + l["dynhost"] + b":" + port)
             if bs:
                 y += b"    backends:\n"
                 for b in bs:
